@@ -1443,6 +1443,73 @@ mod c08_norm {
 // C08 — shifts (bounded: N = 1, radix 4, size 2, shift amount constant per harness): lsh / rsh / rsh_assign / lsh_assign
 // represent a * 2^(+-k) on the torus within one unit of the last limb, balanced digits, no panic for any amount
 // (including amounts larger than the precision).
+// C08 (NTT120 family): the FUSED big-accumulator normalisations res <- res +/- normalise(a * 2^offset), i128 accumulators (seed C08-4: the carry of the middle steps)
+mod c08_ntt120_fused {
+    use super::fmt_stub;
+    use crate::ntt120::NTT120Ref;
+    use crate::reference::ntt120::vec_znx_big::{ntt120_vec_znx_big_normalize_add_assign, ntt120_vec_znx_big_normalize_sub_assign};
+    use poulpy_hal::layouts::{VecZnx, VecZnxBig, ZnxView, ZnxViewMut};
+    const B: usize = 4;
+
+    fn fused_case<const SA: usize, const SR: usize>(off: i64, sub: bool) {
+        let mut a = VecZnxBig::<_, NTT120Ref>::alloc(1, 1, SA);
+        let mut va: i128 = 0;
+        let mut j = 0;
+        while j < SA {
+            let x: i64 = kani::any();
+            kani::assume(x > -(1 << 20) && x < (1 << 20)); // un-normalised accumulator limbs
+            a.at_mut(0, j)[0] = x as i128;
+            va += (x as i128) << (B * (SA - 1 - j));
+            j += 1;
+        }
+        let mut r: VecZnx<Vec<u8>> = VecZnx::alloc(1, 1, SR);
+        let mut v0: i128 = 0;
+        j = 0;
+        while j < SR {
+            let d: i64 = kani::any();
+            kani::assume(d >= -(1 << (B - 1)) && d < (1 << (B - 1)));
+            r.at_mut(0, j)[0] = d;
+            v0 += (d as i128) << (B * (SR - 1 - j));
+            j += 1;
+        }
+        let mut carry = [0i128; 8];
+        if sub {
+            ntt120_vec_znx_big_normalize_sub_assign::<_, _, NTT120Ref>(&mut r, B, off, 0, &a, B, 0, &mut carry);
+        } else {
+            ntt120_vec_znx_big_normalize_add_assign::<_, _, NTT120Ref>(&mut r, B, off, 0, &a, B, 0, &mut carry);
+        }
+        let mut vr: i128 = 0;
+        j = 0;
+        while j < SR {
+            vr += (r.at(0, j)[0] as i128) << (B * (SR - 1 - j));
+            j += 1;
+        }
+        let neg: u32 = if off < 0 { (-off) as u32 } else { 0 };
+        let pos: u32 = if off > 0 { off as u32 } else { 0 };
+        let delta = if sub { v0 - vr } else { vr - v0 };
+        let lhs: i128 = delta << ((B * SA) as u32 + neg);
+        let rhs: i128 = va << ((B * SR) as u32 + pos);
+        let m: i128 = 1i128 << ((B * SA + B * SR) as u32 + neg);
+        let unit: i128 = 1i128 << ((B * SA) as u32 + neg);
+        let e = (lhs - rhs).rem_euclid(m);
+        assert!(e <= unit || e >= m - unit, "C08:fused normalise adds / subtracts a * 2^offset on the torus within one unit of the result's last limb");
+    }
+    macro_rules! fused_harness {
+        ($name:ident, $sa:expr, $sr:expr, $off:expr, $sub:expr) => {
+            #[kani::proof]
+            #[kani::unwind(10)]
+            #[kani::stub(alloc::fmt::format, fmt_stub)]
+            fn $name() {
+                fused_case::<$sa, $sr>($off, $sub);
+            }
+        };
+    }
+    fused_harness!(c08_ntt120_fused_add__b4_sa2_sr3_offm9, 2, 3, -9, false);
+    fused_harness!(c08_ntt120_fused_sub__b4_sa2_sr3_offm8, 2, 3, -8, true);
+    fused_harness!(c08_ntt120_fused_add__b4_sa2_sr2_off0, 2, 2, 0, false);
+    fused_harness!(c08_ntt120_fused_add__b4_sa2_sr3_offm3, 2, 3, -3, false);
+}
+
 mod c08_shift {
     use super::fmt_stub;
     use crate::reference::vec_znx::{vec_znx_lsh, vec_znx_lsh_assign, vec_znx_rsh, vec_znx_rsh_assign};
@@ -1574,6 +1641,58 @@ mod c08_shift {
             }
         };
     }
+    // accumulating shifts (seed C02-4): res <- res -/+ a * 2^k, for a result as long as the operand or shorter, from a DIRTY carry buffer (it is scratch:
+    // its contents must not matter -- a stale carry is subtracted into the last limb otherwise)
+    fn acc_case(k: usize, rs: usize, sub: bool) {
+        use crate::reference::vec_znx::vec_znx_lsh_sub;
+        let (a, va) = input();
+        let mut carry: [i64; 4] = [kani::any(), kani::any(), kani::any(), kani::any()];
+        kani::assume(carry[0] > -(1 << 20) && carry[0] < (1 << 20));
+        let mut r: VecZnx<Vec<u8>> = VecZnx::alloc(1, 1, rs);
+        let mut v0: i128 = 0;
+        let mut j = 0;
+        while j < rs {
+            let d: i64 = kani::any();
+            kani::assume(d >= -(1 << (B - 1)) && d < (1 << (B - 1)));
+            r.at_mut(0, j)[0] = d;
+            v0 = (v0 << B) + d as i128;
+            j += 1;
+        }
+        if sub {
+            vec_znx_lsh_sub::<_, _, crate::FFT64Ref>(B, k, &mut r, 0, &a, 0, &mut carry);
+        } else {
+            // (the backend's own kernel set: the helper implementor ZnxRef ignores OVERWRITE in the middle step, DESIGN section 6-7)
+            vec_znx_lsh::<_, _, crate::FFT64Ref, false>(B, k, &mut r, 0, &a, 0, &mut carry);
+        }
+        let mut vr: i128 = 0;
+        j = 0;
+        while j < rs {
+            let d = r.at(0, j)[0];
+            vr = (vr << B) + d as i128;
+            j += 1;
+        }
+        let up: u32 = (B * (S - rs)) as u32;
+        let m: i128 = 1i128 << ((B * S) as u32);
+        let unit: i128 = 1i128 << up;
+        let want = if sub { (v0 << up) - (va << k as u32) } else { (v0 << up) + (va << k as u32) };
+        let e = ((vr << up) - want).rem_euclid(m);
+        assert!(e <= unit || e >= m - unit, "C02:res -/+ a * 2^k on the torus within one unit of the result's last limb, whatever the scratch held");
+    }
+    macro_rules! acc_harness {
+        ($name:ident, $k:expr, $rs:expr, $sub:expr) => {
+            #[kani::proof]
+            #[kani::unwind(8)]
+            #[kani::stub(alloc::fmt::format, fmt_stub)]
+            fn $name() {
+                acc_case($k, $rs, $sub);
+            }
+        };
+    }
+    acc_harness!(c02_lsh_sub__b4_a2_r1_k6, 6, 1, true);
+    acc_harness!(c02_lsh_sub__b4_a2_r2_k3, 3, 2, true);
+    acc_harness!(c02_lsh_sub__b4_a2_r1_k0, 0, 1, true);
+    acc_harness!(c02_lsh_add__b4_a2_r1_k6, 6, 1, false);
+    acc_harness!(c02_lsh_add__b4_a2_r2_k3, 3, 2, false);
     trunc_harness!(c08_shift_trunc__b4_a2_r1_k0, 0);
     trunc_harness!(c08_shift_trunc__b4_a2_r1_k3, 3);
     trunc_harness!(c08_shift_trunc__b4_a2_r1_k4, 4);
